@@ -136,6 +136,10 @@ class Check:
         if self.level == "translation_validation":
             ev["coverage"].setdefault("programs", max(1, len(nontriv)))
             ev["coverage"].setdefault("disagreements_checked", len(self.violations))
+        if self.level == "model_checking":
+            ev["coverage"].setdefault("states", max(1, self.coverage_extra.get("states", n_obl)))
+            ev["coverage"].setdefault("transitions", max(1, self.coverage_extra.get("transitions", n_obl)))
+            ev["coverage"].setdefault("traces_validated_against_impl", 0)
         if self.level == "proof":
             ev["coverage"].setdefault("checker_cmd", "./check %s --tier %s" % (self.pid, self.tier))
         with open(os.path.join(evdir, "%s.json" % self.pid), "w") as fh:
